@@ -146,8 +146,54 @@ func (e *Env) resolveType(x ast.Expr) types.Type {
 		}
 	case *ast.ParenExpr:
 		return e.resolveType(x.X)
+	case *ast.IndexExpr:
+		return e.instantiateType(x.X, []ast.Expr{x.Index})
+	case *ast.IndexListExpr:
+		return e.instantiateType(x.X, x.Indices)
 	}
 	return nil
+}
+
+// instantiateType resolves G[A, B] in a contract of a generic function: a type argument that is the name of a type
+// parameter of the function under verification stands for the corresponding type argument of this instance.
+func (e *Env) instantiateType(g ast.Expr, args []ast.Expr) types.Type {
+	gt, _ := e.resolveType(g).(*types.Named)
+	if gt == nil || gt.TypeParams() == nil || gt.TypeParams().Len() != len(args) {
+		return nil
+	}
+	var targs []types.Type
+	for _, a := range args {
+		var t types.Type
+		if id, ok := a.(*ast.Ident); ok && e.vc != nil && e.vc.fn != nil {
+			fn := e.vc.fn
+			var tps *types.TypeParamList
+			if o := fn.Origin(); o != nil {
+				tps = o.TypeParams()
+			}
+			if tps == nil {
+				tps = fn.TypeParams()
+			}
+			if tps != nil {
+				for i := 0; i < tps.Len(); i++ {
+					if tps.At(i).Obj().Name() == id.Name && i < len(fn.TypeArgs()) {
+						t = fn.TypeArgs()[i]
+					}
+				}
+			}
+		}
+		if t == nil {
+			t = e.resolveType(a)
+		}
+		if t == nil {
+			return nil
+		}
+		targs = append(targs, t)
+	}
+	inst, err := types.Instantiate(nil, gt.Origin(), targs, false)
+	if err != nil {
+		return nil
+	}
+	return inst
 }
 
 func constTV(c constant.Value, t types.Type) TV {
